@@ -8,6 +8,7 @@ import (
 	"github.com/refraction-networking/uquic/internal/monotime"
 	"github.com/refraction-networking/uquic/internal/protocol"
 	"github.com/refraction-networking/uquic/internal/utils"
+	vu "github.com/refraction-networking/uquic/internal/verifutil"
 )
 
 // Verification harness for the congestion controller (property C20). Add-only: it
@@ -88,8 +89,26 @@ func VerifNewSenderW(mds int64, reno bool, icw, imax int64) *VerifSender {
 	return &VerifSender{C: c, Rtt: rtt}
 }
 
-func (v *VerifSender) State() VerifState {
-	c := v.C
+func (v *VerifSender) State() VerifState { return verifStateOfSender(v.C) }
+
+// VerifStateOf: the model-visible state of a SendAlgorithm that is the package's cubicSender
+// (what NewCubicSender returns behind the interface), for harnesses outside the package.
+func VerifStateOf(a SendAlgorithm) (VerifState, bool) {
+	c, ok := a.(*cubicSender)
+	if !ok {
+		return VerifState{}, false
+	}
+	return verifStateOfSender(c), true
+}
+
+// VerifObStr prints the observation term `Ob ret panicked <fields>` of coq/Congestion/Run.v.
+func VerifObStr(ret int64, pan bool, s VerifState) string {
+	return vu.App("Ob", vu.Z(ret), vu.B(pan), vu.Z(s.Cwnd), vu.Z(s.Ssthresh), vu.Z(s.LargestSent), vu.Z(s.LargestAcked),
+		vu.Z(s.LargestAtCutback), vu.B(s.LastCutbackExitedSS), vu.ZU(s.NumAcked), vu.Z(s.Mds), vu.Z(s.HsEnd), vu.Z(s.HsLastSent),
+		vu.B(s.HsStarted), vu.B(s.HsFound), vu.Z(s.HsCurMinRTT), vu.Z(int64(s.HsCount)), vu.Z(s.PBudget), vu.Z(s.PMds), vu.Z(s.PLast))
+}
+
+func verifStateOfSender(c *cubicSender) VerifState {
 	return VerifState{
 		Cwnd: int64(c.congestionWindow), Ssthresh: int64(c.slowStartThreshold),
 		LargestSent: int64(c.largestSentPacketNumber), LargestAcked: int64(c.largestAckedPacketNumber),
